@@ -248,6 +248,22 @@ Definition sc_fs_lookup (l : sc_loader) (memo : list (bytes * nat)) (n : bytes) 
             end
   end.
 
+(* FileSystemLoader.GetModifiedTime: a memoised path is stat'ed directly; when that file is gone the call fails (and
+   drops the entry) without searching the other paths -- the next call searches again *)
+Definition sc_memo_remove (memo : list (bytes * nat)) (n : bytes) : list (bytes * nat) :=
+  filter (fun kv => negb (bytes_eqb (fst kv) n)) memo.
+Definition sc_fs_stat (l : sc_loader) (memo : list (bytes * nat)) (n : bytes) : option Z * list (bytes * nat) :=
+  match assoc_bytes memo n with
+  | Some d => match sc_file_at l d n with
+              | Some f => (Some (fl_mtime f), memo)
+              | None => (None, sc_memo_remove memo n)
+              end
+  | None => match sc_loader_find l n with
+            | Some (d, f) => (Some (fl_mtime f), (n, d) :: memo)
+            | None => (None, memo)
+            end
+  end.
+
 (* one atomic step *)
 Definition sc_exec (w : sc_world) (op : sc_op) (sh : sc_shared) : sc_shared * sc_resp :=
   match op with
@@ -267,8 +283,8 @@ Definition sc_exec (w : sc_world) (op : sc_op) (sh : sc_shared) : sc_shared * sc
       | None => (sh, ScRStat None)
       | Some l =>
           if ld_fs l then
-            let (o, memo') := sc_fs_lookup l (nth i (sh_memo sh) []) n in
-            (sc_set_memo sh (sc_upd_nth (sh_memo sh) i memo'), ScRStat (option_map fl_mtime o))
+            let (o, memo') := sc_fs_stat l (nth i (sh_memo sh) []) n in
+            (sc_set_memo sh (sc_upd_nth (sh_memo sh) i memo'), ScRStat o)
           else (sh, ScRStat None)
       end
   | ScOpLoaderExists i n =>
